@@ -91,7 +91,9 @@ GENERIC_STR = [
     "jet", "m", "km", ":", "sans-serif", "0.5a", "tab10", "none_", "v2",
     # matplotlib line styles (two of them are shipped defaults) and other
     # values that start with a dash without being numbers or options
-    "--", "-.", "-", "-x", "--foo"
+    "--", "-.", "-", "-x", "--foo",
+    # a literal dollar sign / tilde (API tokens, quoted paths)
+    "$HOME", "tok_${HOME}_1", "~user"
 ]
 NUM_TOKENS = [
     "0", "1", "2", "7", "10", "205", "0.5", "1.5", "2.25", "1e3", "1.5e-3",
